@@ -1072,8 +1072,15 @@ class P(Prop):
         "in the reversed method order and per method alone; evidence, FASTA and map files under random names (sub-directories, "
         "one file name in several directories) mentioned in random, mostly non-alphabetical order, 10 % of the multi-file inputs "
         "mention one file twice; non-trivial there = several methods or several maps and "
-        "every method ingests something. The extra stage repeats 15 (quick) / 150 (thorough) such scenarios with every "
-        "run in a process of its own"
+        "every method ingests something. The extra stage repeats 18 (quick) / 180 (thorough) such scenarios with every "
+        "run in a process of its own. Non-specific searches: 30 % of the remapping direct / shared-list cases hand the ingestion the "
+        "(6-residue prefix index, sequences) pair built by the REAL digest functions (get_peptide_to_protein_map_from_params, "
+        "get_peptide_to_protein_maps, get_peptide_to_protein_map with digestion none / enzyme no_enzyme) from a generated FASTA of "
+        "2-4 proteins over 9 blocks with shared six-residue prefixes (generated or explicit decoys, window min 4-8 / max 9-60), "
+        "PSM peptides being substrings of targets, of decoys, of both, peptides contained in no sequence whose first six residues "
+        "occur in exactly one / several sequences, peptides of fewer than / exactly six residues, longer than the window, all "
+        "with modification spellings; 18 % of the digestion parameter sets of entry-point runs are --enzyme no_enzyme / "
+        "--digestion none; 3 % of the cases compare digest.get_proteins on such a pair directly"
     )
     assumptions = [
         "csv.reader/float() re-read repr(float) cells exactly; pandas' C float parser agrees with float() on the 12 PEP literals (asserted per process)",
@@ -1082,6 +1089,7 @@ class P(Prop):
         "pandas reads `inf`, `-inf`, `nan` and the empty cell of a numeric PEP column as floats, and delivers the whole column as text (missing cells stay NaN) once one cell is no number (asserted per process)",
         "a PEP of -inf (cell `-inf` outside FragPipe / Sage, `inf` under FragPipe) is outside the model (PepInfo.pep is a rational) and not generated",
         "file sets with a refused PEP cell are generated for the direct and shared-list calls of parse_evidence_files only, not for runs of the entry point",
+        "non-specific digests: generated databases have distinct identifiers; a substring of a database sequence whose length lies outside the digest's window is compared with the model but not judged by the oracle beyond 'only sequences containing it' (the property text does not say whether the digest knows it)",
     ]
     trusted_extra = ["pandas.read_csv / csv.reader reading of the generated files (validated only by the correspondence)"]
 
